@@ -454,6 +454,26 @@ func init() {
 		for k := 0; k < n*2; k++ {
 			pairs = append(pairs, [2]int{rng.Intn(len(wps)), rng.Intn(len(wps))})
 		}
+		// distinct but very close white points (differently rounded publications of one illuminant, daylight
+		// chromaticities a few kelvin apart): A->B must still map A onto B and compose
+		for k := 0; k < 60; k++ {
+			base := wps[rng.Intn(len(wps))]
+			d := []float32{1e-6, 1e-5, 5e-5, 1e-4, 2e-4, 3e-4, 1e-3}[k%7]
+			near := xy(base.X+d*float32(rng.Intn(3)-1), base.Y+d*float32(1-2*rng.Intn(2)))
+			if !valid(near) {
+				continue
+			}
+			wps = append(wps, near)
+			names = append(names, "near")
+			i := len(wps) - 1
+			j := 0
+			for j = 0; j < len(wps); j++ {
+				if wps[j] == base {
+					break
+				}
+			}
+			pairs = append(pairs, [2]int{j, i}, [2]int{i, j})
+		}
 		apply64 := func(m matrix.Matrix3, v [3]float64) [3]float64 { return fromCols(m).apply(v) }
 		for _, p := range pairs {
 			a, b := wps[p[0]], wps[p[1]]
